@@ -339,6 +339,14 @@ def _is_columnize_item(node, i):
             and isinstance(node.args[1], ast.Constant) and node.args[1].value == i)
 
 
+def _is_float_type(node):
+    try:
+        t = ast.unparse(node)
+    except Exception:
+        return False
+    return t in ("np.float64", "float", "numpy.float64", "np.double", "'float64'", '"float64"', "np.float_")
+
+
 class _Canon(ast.NodeTransformer):
     def visit_Constant(self, n):
         c = _num(n)
@@ -416,6 +424,11 @@ class _Canon(ast.NodeTransformer):
         bop = _np_func(n, _BOOL_FUNCS)
         if bop is not None:
             return self.visit_BoolOp(ast.BoolOp(op=bop(), values=list(n.args)))
+        # a cast to a float type has no mathematical content (the model is dtype-free): `e.astype(np.float64)`,
+        # `e.astype(float)`, `np.asarray(e, dtype=np.float64)` read as `e`
+        if isinstance(n.func, ast.Attribute) and n.func.attr == "astype" and len(n.args) == 1 and not n.keywords \
+                and _is_float_type(n.args[0]):
+            return n.func.value
         # columnize plumbing: `x, _, transform_result = columnize(x, ...)`; `transform_result(y)`
         if _is_columnize_item(n, 0) and n.args[0].args:
             return n.args[0].args[0]
